@@ -58,6 +58,9 @@ pub struct Call {
     /// every value, equal ones merged
     #[aggregate(strategy = Distribution)]
     dist: u64,
+    /// floating-point values, among them both infinities (which are values like any other; only NaN is not)
+    #[aggregate(strategy = Distribution)]
+    fdist: f64,
 }
 
 #[aggregate]
@@ -72,6 +75,13 @@ pub struct Child {
 /// what an input carries in the fields derived from (weight, last)
 fn opt_sum_of(i: &Input) -> Option<u64> {
     if i.last % 2 == 0 { Some(i.weight) } else { None }
+}
+fn fdist_of(i: &Input) -> f64 {
+    match i.weight % 7 {
+        0 => f64::INFINITY,
+        1 => f64::NEG_INFINITY,
+        r => r as f64 + 0.5,
+    }
 }
 fn child_of(i: &Input) -> Child {
     Child { cw: i.weight * 3, cl: i.last + 1 }
@@ -101,6 +111,9 @@ pub struct Plain {
     /// every value, equal ones merged
     #[aggregate(strategy = Distribution)]
     dist: u64,
+    /// floating-point values, among them both infinities (which are values like any other; only NaN is not)
+    #[aggregate(strategy = Distribution)]
+    fdist: f64,
     /// an aggregatable child, merged field by field
     #[aggregate(strategy = Flatten)]
     #[metrics(flatten)]
@@ -117,7 +130,7 @@ fn mk_plain(i: &Input) -> Plain {
     for _ in 0..(1 + i.id % 3) {
         multi.add_value(i.weight % 3);
     }
-    Plain { weight: i.weight, last: i.last, ident: i.id, multi, opt_last: opt_of(i.last), opt_sum: opt_sum_of(i), opt_keep: opt_of(i.last), dist: i.weight % 5, child: child_of(i) }
+    Plain { weight: i.weight, last: i.last, ident: i.id, multi, opt_last: opt_of(i.last), opt_sum: opt_sum_of(i), opt_keep: opt_of(i.last), dist: i.weight % 5, fdist: fdist_of(i), child: child_of(i) }
 }
 
 /// an aggregate embedded in a parent unit-of-work entry (closed together with it)
@@ -177,7 +190,7 @@ pub enum AK {
     Merge { tag: u32, id: u64 },
     FlushBegin { tag: u32 },
     FlushEnd { tag: u32 },
-    Emit { sink: u32, keys: Vec<(String, String)>, weight: Option<u64>, last: Option<u64>, ids: Vec<(u64, u64)>, raw_id: Option<u64>, tag: Option<String>, multi: Vec<(u64, u64)>, opt_last: Option<u64>, extra: BTreeMap<String, u64>, dist: Vec<(u64, u64)> },
+    Emit { sink: u32, keys: Vec<(String, String)>, weight: Option<u64>, last: Option<u64>, ids: Vec<(u64, u64)>, raw_id: Option<u64>, tag: Option<String>, multi: Vec<(u64, u64)>, opt_last: Option<u64>, extra: BTreeMap<String, u64>, dist: Vec<(u64, u64)>, fdist: Vec<(String, u64)> },
     LoggedDrop { tag: u32 },
     FlushReq { fid: u64 },
     FlushDone { fid: u64 },
@@ -361,7 +374,14 @@ fn emit_from(no: u32, t: &TestEntry, raw: bool) -> AK {
         }
     }
     let dist = t.metrics.get("dist").map(|m| obs_pairs(&m.distribution)).unwrap_or_default();
-    AK::Emit { sink: no, keys, weight, last, ids, raw_id, tag, multi, opt_last, extra, dist }
+    // (value as text, occurrences) of the floating-point distribution
+    let fdist: Vec<(String, u64)> = t.metrics.get("fdist").map(|m| m.distribution.iter().map(|o| match o {
+        Observation::Unsigned(v) => (format!("{:?}", *v as f64), 1),
+        Observation::Floating(f) => (format!("{f:?}"), 1),
+        Observation::Repeated { total, occurrences } => (format!("{:?}", if *occurrences == 0 { 0.0 } else { *total / *occurrences as f64 }), *occurrences),
+        _ => ("?".to_string(), 0),
+    }).collect()).unwrap_or_default();
+    AK::Emit { sink: no, keys, weight, last, ids, raw_id, tag, multi, opt_last, extra, dist, fdist }
 }
 
 impl AnyEntrySink for CaptureSink {
@@ -420,7 +440,7 @@ pub struct AggRun {
 }
 
 fn mk_call(i: &Input) -> Call {
-    Call { endpoint: i.key.clone(), weight: i.weight, last: i.last, ident: i.id, tag: format!("t{}", i.last), opt_last: opt_of(i.last), opt_sum: opt_sum_of(i), opt_keep: opt_of(i.last), dist: i.weight % 5 }
+    Call { endpoint: i.key.clone(), weight: i.weight, last: i.last, ident: i.id, tag: format!("t{}", i.last), opt_last: opt_of(i.last), opt_sum: opt_sum_of(i), opt_keep: opt_of(i.last), dist: i.weight % 5, fdist: fdist_of(i) }
 }
 
 enum Target {
@@ -770,6 +790,7 @@ struct Emitted {
     opt_last: Option<u64>,
     extra: BTreeMap<String, u64>,
     dist: Vec<(u64, u64)>,
+    fdist: Vec<(String, u64)>,
 }
 
 pub fn check_c10(plan: &Value, run: &AggRun) -> Option<Violation> {
@@ -786,7 +807,7 @@ pub fn check_c10(plan: &Value, run: &AggRun) -> Option<Violation> {
     let mut logged_drop = None;
     for e in h {
         match &e.k {
-            AK::Emit { sink, keys, weight, last, ids, raw_id, tag, multi, opt_last, extra, dist } => emitted.push(Emitted { seq: e.seq, sink: *sink, keys: keys.clone(), weight: *weight, last: *last, ids: ids.clone(), raw_id: *raw_id, tag: tag.clone(), multi: multi.clone(), opt_last: *opt_last, extra: extra.clone(), dist: dist.clone() }),
+            AK::Emit { sink, keys, weight, last, ids, raw_id, tag, multi, opt_last, extra, dist, fdist } => emitted.push(Emitted { fdist: fdist.clone(), seq: e.seq, sink: *sink, keys: keys.clone(), weight: *weight, last: *last, ids: ids.clone(), raw_id: *raw_id, tag: tag.clone(), multi: multi.clone(), opt_last: *opt_last, extra: extra.clone(), dist: dist.clone() }),
             AK::SendBegin { id } => {
                 send_inv.insert(*id, e.seq);
             }
@@ -827,6 +848,7 @@ pub fn check_c10(plan: &Value, run: &AggRun) -> Option<Violation> {
             let mut osum = 0u64; // sum of the optional values that were present
             let mut latest_some: Option<(u64, u64)> = None; // (merge seq, value) of the last *present* optional value
             let mut want_dist: BTreeMap<u64, u64> = BTreeMap::new();
+            let mut want_fdist: BTreeMap<String, u64> = BTreeMap::new();
             let mut all_placed = true;
             let mut latest: Option<(u64, u64)> = None; // (merge seq, last value)
             for (id, n) in &em.ids {
@@ -859,6 +881,9 @@ pub fn check_c10(plan: &Value, run: &AggRun) -> Option<Violation> {
                 // (spelled out here, independently of the constructor: present iff `last` is even)
                 osum += if inp.last % 2 == 0 { inp.weight } else { 0 };
                 *want_dist.entry(inp.weight % 5).or_insert(0) += 1;
+                // (spelled out independently of the constructor)
+                let fv = if inp.weight % 7 == 0 { f64::INFINITY } else if inp.weight % 7 == 1 { f64::NEG_INFINITY } else { (inp.weight % 7) as f64 + 0.5 };
+                *want_fdist.entry(format!("{fv:?}")).or_insert(0) += 1;
                 if let Some(p) = merge_pos.get(id) {
                     if latest.map(|l| *p > l.0).unwrap_or(true) {
                         latest = Some((*p, inp.last));
@@ -888,6 +913,13 @@ pub fn check_c10(plan: &Value, run: &AggRun) -> Option<Violation> {
                 let want_dist: Vec<(u64, u64)> = want_dist.into_iter().collect();
                 if em.dist != want_dist {
                     return Some(Violation::new("distribution_field_miscounted", format!("aggregate {:?} (sink {sink}): the Distribution-strategy field reports {:?}, the inputs it contains carried {:?} (value, occurrences)", em.keys, em.dist, want_dist)));
+                }
+                let mut got_fdist: BTreeMap<String, u64> = BTreeMap::new();
+                for (v, n) in &em.fdist {
+                    *got_fdist.entry(v.clone()).or_insert(0) += n;
+                }
+                if got_fdist != want_fdist {
+                    return Some(Violation::new("distribution_field_miscounted", format!("aggregate {:?} (sink {sink}): the floating-point Distribution field reports {:?}, the inputs it contains carried {:?} (value, occurrences; both infinities are values)", em.keys, got_fdist, want_fdist)));
                 }
                 if all_placed && latest.is_some() && em.extra.get("opt_keep").copied() != latest_some.map(|l| l.1) {
                     return Some(Violation::new("keep_last_mismatch", format!("aggregate {:?} (sink {sink}) reports opt_keep={:?} (keep-last that skips absent values), the last present value merged was {:?}", em.keys, em.extra.get("opt_keep"), latest_some.map(|l| l.1))));
